@@ -17,7 +17,7 @@ from pypika_tortoise import Case, Field, Query, Table, Tuple
 from pypika_tortoise import functions as FN
 from pypika_tortoise import analytics as AN
 from pypika_tortoise.enums import Order
-from pypika_tortoise.terms import AggregateFunction, AnalyticFunction, Criterion, Function, Term, ValueWrapper
+from pypika_tortoise.terms import AggregateFunction, AnalyticFunction, Array, Bracket, Criterion, Function, Term, ValueWrapper
 
 PROPERTY = "C12"
 ALIAS = "al9x"
@@ -107,6 +107,18 @@ POS = {
     "sel_extract": ("op", lambda Q, x: Q.from_(T()).select(FN.Extract("YEAR", x).as_("out"))),
     "sel_cast": ("op", lambda Q, x: Q.from_(T()).select(FN.Cast(x, "INT").as_("out"))),
     "select_nested_func": ("op", lambda Q, x: Q.from_(T()).select(FN.Coalesce(FN.Max(x), 0).as_("out"))),
+    # the enclosing select item carries no alias of its own
+    "sel_tuple_unaliased": ("op", lambda Q, x: Q.from_(T()).select(Tuple(x, 1), T().k)),
+    "sel_bracket_unaliased": ("op", lambda Q, x: Q.from_(T()).select(Bracket(x), T().k)),
+    "sel_array_unaliased": ("op", lambda Q, x: Q.from_(T()).select(Array(x, 1), T().k)),
+    "sel_func_unaliased": ("op", lambda Q, x: Q.from_(T()).select(FN.Coalesce(x, 0), T().k)),
+    "sel_arith_unaliased": ("op", lambda Q, x: Q.from_(T()).select(x + 1, T().k)),
+    "sel_arith_r_unaliased": ("op", lambda Q, x: Q.from_(T()).select(T().k, 2 * x)),
+    "sel_cmp_unaliased": ("op", lambda Q, x: Q.from_(T()).select(x == 1, T().k)),
+    "sel_case_unaliased": ("op", lambda Q, x: Q.from_(T()).select(Case().when(T().k == 1, x).else_(3), T().k)),
+    "sel_agg_unaliased": ("op", lambda Q, x: Q.from_(T()).select(FN.Max(x), T().k)),
+    "sel_over_unaliased": ("op", lambda Q, x: Q.from_(T()).select(AN.Sum(T().k).over(x), T().k)),
+    "insert_tuple_unaliased": ("op", lambda Q, x: Q.into(T()).insert(1, Tuple(x, 2))),
 }
 PG_POS = {
     "returning": ("def", lambda Q, x: Q.into(T()).insert(1).returning(x)),
@@ -128,8 +140,22 @@ REF_POS = {
     "orderby_after_star": lambda Q, x, x2: Q.from_(T()).select(x).select("*").orderby(x2),
     "orderby_never_selected": lambda Q, x, x2: Q.from_(T()).select(T().k).orderby(x2),
     "groupby_never_selected": lambda Q, x, x2: Q.from_(T()).select(T().k).groupby(x2),
+    # the same, with the statement rendered before the select list changes (and rendered twice)
+    "orderby_rendered_then_star": lambda Q, x, x2: _r(Q.from_(T()).select(x).orderby(x2)).select("*"),
+    "groupby_rendered_then_table_star": lambda Q, x, x2: _r(Q.from_(T()).select(x).groupby(x2)).select(T().star),
+    "orderby_rendered_then_table_star": lambda Q, x, x2: _r(Q.from_(T()).select(x).orderby(x2)).select(T().star),
+    "orderby_same_rendered_then_second": lambda Q, x, x2: _r(Q.from_(T()).select(x).orderby(x2)).select((T().k + 7).as_("other9")),
+    "groupby_never_selected_rendered_then_selected": lambda Q, x, x2: _r(Q.from_(T()).select(T().k).groupby(x2)).select(x),
     "setop_orderby_alias_of_later_operand": lambda Q, x, x2: Q.from_(T()).select(T().k).union(Q.from_(Table("u")).select(x)).orderby(x2),
 }
+
+
+def _r(q):
+    """render (plain and parameterised) and hand the statement back"""
+    q.get_sql()
+    q.get_parameterized_sql()
+    str(q)
+    return q
 
 
 def chunks(tier, seed):
@@ -393,6 +419,17 @@ def run_case(case):
     term = mk(name, True)
     c = cls_of(name, term)
     res.states.append(h64(repr((name, pos, how))))
+    if kind != "op" and hasattr(a, "replace_table"):
+        # replacing a table that does not occur in the statement changes nothing - in particular no alias
+        try:
+            a2 = a.replace_table(Table("zz9"), Table("yy9"))
+            r1, r2 = render_both(a, d), render_both(a2, d)
+        except Exception as e:
+            r1, r2 = None, "!" + type(e).__name__
+        res.transitions += 1
+        if r1 != r2:
+            res.violate("C12|%s|defining|changed-by-unrelated-replace_table" % c, "replace_table of a table that does not occur changes the statement (%s)" % pos,
+                        dialect=d, term=name, position=pos, before=r1, after=r2)
     for (sa, sb), mode in zip(zip(render_both(a, d), render_both(b, d)), ("inline", "param")):
         res.transitions += 2
         res.outcomes.append(h64(sa))
